@@ -435,6 +435,31 @@ def _trace_distance_rules(ctx, repo):
         ctx.ob('C08.f', f'{ci.qual}._trace_distance_bound_', worst is None,
                '' if worst is None else f'at exponent {worst[0]} the override returns {worst[1]:.6f} but the eigen-shifts {shifts} give a maximum trace distance of {worst[2]:.6f}: '
                'not an upper bound', ci.mod.rel, fn.lineno)
+        # qudit-capable families: the same override is asked about dimension 3 and 4
+        if any(isinstance(x, ast.Attribute) and x.attr in ('_dimension', 'dimension') for x in ast.walk(ci.node)):
+            for dim in (3, 4):
+                try:
+                    comps_d, _ = c03._components(repo, ci, dim)
+                except (fold.NotLiteral, AnalysisError, fdx.Unsupported) as e:
+                    ctx.unres('C08.f', f'{ci.qual}:dimension={dim}', f'eigen-components not extractable: {e}', ci.mod.rel, fn.lineno)
+                    continue
+                shifts_d = [complex(t).real for t, _ in comps_d]
+                worst = None
+                for e in PROBES:
+                    self_obj = {'_exponent': e, 'exponent': e, '_global_shift': 0.0, '_dimension': dim, 'dimension': dim}
+                    it = fdx.NumInterp({'self': self_obj}, call_hook=lambda call, it_: False if ast.unparse(call.func).endswith(('is_parameterized', '_is_parameterized_')) else NotImplemented)
+                    try:
+                        got = it.call(fn)
+                    except fdx.Unsupported as ex:
+                        raise AnalysisError(f'{ci.qual}._trace_distance_bound_ is outside the interpretable subset: {ex}')
+                    if got is None:
+                        continue
+                    want = _true_trace_distance([np.pi * e * s_ for s_ in shifts_d])
+                    if float(got) < want - 1e-9 and worst is None:
+                        worst = (e, float(got), want)
+                ctx.ob('C08.f', f'{ci.qual}._trace_distance_bound_:dimension={dim}', worst is None, '' if worst is None else
+                       f'for dimension {dim} at exponent {worst[0]} the override returns {worst[1]:.6f}, but the eigen-phases of the qudit gate reach a trace distance of {worst[2]:.6f}',
+                       ci.mod.rel, fn.lineno)
     if n_cls < 8:
         raise AnalysisError(f'only {n_cls} eigen-gate families with a _trace_distance_bound_ override could be analysed')
     # the generic helper
